@@ -96,13 +96,15 @@ class InitMethod(MethodDescriptor):
         # initialize the attribute.
         for attr, attr_spec in instance_metadata.attrs.items():
             if (
-                not attr_spec.init
-                or attr_spec.owner is not spec_cls
+                attr_spec.owner is not spec_cls
                 or attr == instance_metadata.init_overflow_attr
             ):
                 continue
 
-            value = kwargs.get(attr, MISSING)
+            # Attributes with `init=False` cannot be passed to the constructor,
+            # but (as for dataclasses) still receive their own copy of the
+            # default, so that instances never share the class-level object.
+            value = kwargs.get(attr, MISSING) if attr_spec.init else MISSING
             if value is not MISSING:
                 # If owner is not spec-class, we have already looked up and
                 # handled copying.
